@@ -42,6 +42,7 @@ import JanetModel.Compile.SeqCallL
 import JanetModel.Compile.SeqCoreIf
 import JanetModel.Compile.SeqErr
 import JanetModel.Compile.SeqTailAll
+import JanetModel.Compile.SeqVar
 namespace JanetModel.Props.C02
 open JanetModel.Emit
 
@@ -625,6 +626,41 @@ theorem compile_correct_call_error (p : Program) (f0 : Frame) (rest : List Frame
         f args hna hG hargs { c with cur := posOf cur pp } cq slot0 sc rs pool ps n2 env env_a s s_a s' vs ev epos hs hp hl htop
         hm hcc hsa happ henv
     exact ⟨hsemE, e1, e2, mx, more, seg, segm, b1, b2, b3, b4, b5, vm⟩
+
+/-- **`var` declarations**: `(var x e)` with `e` in the fragment `TF G b`, in a local scope, value used or dropped (no hint).
+    `janetc_var` = the value, then `namelocal` with the MUTABLE flag: never an alias — always a fresh register and a copy — and the new
+    name's slot is flagged mutable; `Lang/Sem` binds a fresh box, as for `def`.  Conclusion `Correct2 … false …` (value in the result
+    slot, environment extended by `x`, invariants re-established).  This is the declaration half of `var` / `set`: nothing in the
+    fragment writes the variable afterwards (`set` is not covered — see `compile_correct_partial` for what it needs). -/
+theorem compile_correct_var (p : Program) (f0 : Frame) (rest : List Frame) (V : Array Value) (P : List JanetModel.Emit.KConst)
+    (hP : P.length < 65536)
+    (hK : ∀ i, i < P.length → (p.defs.getD f0.defIdx default).consts.getD i .nil = litOf V (P.getD i .nil))
+    (FF : FloatFacts) (G : String → Prop)
+    (fuel : Nat) (x : String) (ve : Expr) (pp : Pos) (opts : Fopts) (c c' : CState) (slot : JSlot) (sc : Scope) (rs : List Scope)
+    (pool : List JanetModel.Emit.KConst) (ps : List (List JanetModel.Emit.KConst)) (n : Nat) (cur : Pos) (env env' : Env) (s s' : SS) (v : Value)
+    (ht : opts.tail = false) (hh : opts.hint = none)
+    (hs : c.scopes = sc :: rs) (hp : c.pools = pool :: ps) (hl : c.lim ≤ 240) (htop : sc.top = false)
+    (hGx : ¬ G x) (b : Bool) (hfrag : TF G b ve) (hm : b = true → c.map.length = c.buf.length)
+    (hcomp : cValue (fuel + 1) opts (.form [.sym "var", .sym x, ve] pp) c = some (slot, c'))
+    (hsem : eval n cur env (.form [.sym "var", .sym x, ve] pp) s = .ok (v, env') s')
+    (henv : EnvS G c.scopes env s.boxes.size sc.ra) :
+    Correct2 p f0 rest V P G false c c' slot sc rs pool ps env env' s s' v := by
+  rw [cValue_var_o fuel opts ht hh x ve pp c] at hcomp
+  obtain ⟨q, hq⟩ := curAt_eq c pp
+  cases hcc : cVar (cValue fuel) x ve (curAt c pp) with
+  | none => rw [hcc] at hcomp; simp [fin] at hcomp
+  | some res =>
+    obtain ⟨slot0, cq⟩ := res
+    rw [hcc] at hcomp
+    simp only [fin, Option.some.injEq, Prod.mk.injEq] at hcomp
+    obtain ⟨hsl, hc'⟩ := hcomp
+    subst hsl hc'
+    obtain ⟨n2, env1, s1, _, hev, henv', hs'⟩ := eval_var_inv n cur env env' x ve pp s s' v hsem
+    subst henv' hs'
+    rw [hq] at hcc
+    exact Correct2.recur p f0 rest V P (q := q)
+      (var_core p f0 rest V P hP hK G (TF G b) b fuel (tf_correct_b p f0 rest V P hP hK FF G b fuel) x ve hGx hfrag
+        { c with cur := q } cq slot0 sc rs pool ps n2 (posOf cur pp) env env1 s s1 v hs hp hl htop hm hcc hev henv)
 
 /-- **Compile correctness, tail position (calls)**: a call `(f e₁ … eₙ)` of a global core function (`G f`, not `apply`, not a
     special form), operands in the fragment `TF G b` (either fragment; `hm` needed when `if` is among them), compiled with the TAIL flag in a scope that is not the top level
